@@ -86,6 +86,7 @@ static inline long myth_sleep_queue_enq(myth_sleep_queue_t * q,
   t->next = 0;
   MYTH_VERIF_POINT(17);
   long spin_failed = myth_spin_lock_body(q->ilock);
+  MYTH_VERIF_POINT(18);
   myth_sleep_queue_item_t tail = q->tail;
   if (tail) {
     tail->next = t;
@@ -101,6 +102,7 @@ static inline long myth_sleep_queue_enq(myth_sleep_queue_t * q,
 static inline myth_sleep_queue_item_t myth_sleep_queue_deq(myth_sleep_queue_t * q) {
   MYTH_VERIF_POINT(17);
   myth_spin_lock_body(q->ilock);
+  MYTH_VERIF_POINT(18);
   myth_sleep_queue_item_t head = q->head;
   if (head) {
     myth_sleep_queue_item_t next = head->next;
